@@ -10,6 +10,7 @@ Executes regex bytecode with:
 
 from typing import List, Tuple, Optional, Callable
 from .opcodes import RegexOpCode as Op
+from .. import _verif
 
 
 class RegexTimeoutError(Exception):
@@ -151,6 +152,8 @@ class RegexVM:
         stack: List[Tuple] = []
 
         while True:
+            if _verif.ENABLED and _verif.on_regex_step:
+                _verif.on_regex_step(self, "main", pc, sp, len(stack))
             # Check limits periodically
             step_count += 1
             if step_count % self.poll_interval == 0:
@@ -644,6 +647,8 @@ class RegexVM:
         step_count = 0
 
         while True:
+            if _verif.ENABLED and _verif.on_regex_step:
+                _verif.on_regex_step(self, "lookahead", pc, sp, len(stack))
             step_count += 1
             if step_count % self.poll_interval == 0:
                 if self.poll_callback and self.poll_callback():
@@ -757,6 +762,8 @@ class RegexVM:
         step_count = 0
 
         while True:
+            if _verif.ENABLED and _verif.on_regex_step:
+                _verif.on_regex_step(self, "lookbehind", pc, sp, len(stack))
             step_count += 1
             if step_count % self.poll_interval == 0:
                 if self.poll_callback and self.poll_callback():
